@@ -318,6 +318,39 @@ UciFen ==
                 ELSE {}))
   /\ UNCHANGED <<pos, prev, stk, recs, eng>> /\ l' = l + 1
 
+\* C01 through the command line: `rustybait perft d <fen>` prints a divide (move: count lines and the total)
+Divide ==
+  /\ IsEvent("divide")
+  /\ LET e == Rec[l]
+         p == Parse(e.fen)
+         lg == Legal(p)
+         shown == { e.lines[i][1] : i \in DOMAIN e.lines }
+     IN Report(
+          F(~e.died, "C01", "the perft command crashed", [fen |-> Str(e.fen)])
+          \cup (IF e.died THEN {}
+                ELSE F(shown = { Uci(m) : m \in lg } /\ Len(e.lines) = Cardinality(lg), "C01",
+                       "the perft divide does not list exactly the legal moves",
+                       [fen |-> Str(e.fen), missing |-> { Uci(m) : m \in lg } \ shown, extra |-> shown \ { Uci(m) : m \in lg }])
+                     \cup UNION { LET c == { m \in lg : Uci(m) = e.lines[i][1] } IN
+                                  IF c = {} THEN {}
+                                  ELSE F(e.lines[i][2] = Perft(Apply(p, CHOOSE m \in c : TRUE), e.d - 1), "C01",
+                                         "the perft count below a move differs from the number of legal move paths",
+                                         [fen |-> Str(e.fen), mv |-> e.lines[i][1], depth |-> e.d, got |-> e.lines[i][2],
+                                          want |-> Perft(Apply(p, CHOOSE m \in c : TRUE), e.d - 1)])
+                                : i \in DOMAIN e.lines }))
+  /\ UNCHANGED <<pos, prev, stk, recs, eng>> /\ l' = l + 1
+
+\* C06 through self-play (`rustybait auto`): successive positions of the printed game are linked by legal moves
+SelfPlay ==
+  /\ IsEvent("selfplay")
+  /\ LET e == Rec[l]
+         P(i) == Parse(e.fens[i])
+         bad == { i \in 1..(Len(e.fens) - 1) : ~\E m \in Legal(P(i)) : Normalize(Apply(P(i), m)) = Normalize(P(i + 1)) }
+     IN Report(F(bad = {}, "C06", "self-play made a move that is not a legal move of the position before it",
+                 IF bad = {} THEN [n |-> Len(e.fens)]
+                 ELSE LET i == CHOOSE i \in bad : \A j \in bad : i <= j IN [ply |-> i, from |-> Str(e.fens[i]), to |-> Str(e.fens[i + 1])]))
+  /\ UNCHANGED <<pos, prev, stk, recs, eng>> /\ l' = l + 1
+
 \* C15: the board with the most generated moves a hill-climbing search over accepted FENs found
 Mob ==
   /\ IsEvent("mob")
@@ -330,7 +363,7 @@ Panic ==
   /\ Report(F(FALSE, "PANIC", "the engine panicked", [msg |-> Rec[l].msg, root |-> Rec[l].root]))
   /\ pos' = NoPos /\ prev' = NoObs /\ stk' = << >> /\ recs' = << >> /\ eng' = NoEng /\ l' = l + 1
 
-Next == New \/ Push \/ Pop \/ Query \/ Reimp \/ Mir \/ Var \/ PosMoves \/ States \/ UciFen \/ Mob \/ Panic
+Next == New \/ Push \/ Pop \/ Query \/ Reimp \/ Mir \/ Var \/ PosMoves \/ States \/ UciFen \/ Divide \/ SelfPlay \/ Mob \/ Panic
 Spec == Init /\ [][Next]_vars
 
 \* every event consumed = one state per event plus the initial state
